@@ -162,6 +162,40 @@ def run(pid, tier, seed, a, t0):
         functions_under_contract += ['%s (generic)' % q for q in gen_only]
         for k in stats_all:
             stats_all[k] += stats.get(k, 0)
+    # ---- Layer B: ghost programs (lemmas written as Python over the contracts)
+    from pyvc import ghost as _ghost
+    import contracts.ghostreg as ghostreg
+    gjobs, gobs = [], {}
+    ts = time.time()
+    for spec in ghostreg.PROGRAMS:
+        if pid not in spec['tags']:
+            continue
+        obls, why, paths = _ghost.run(src, spec['program'], spec['cls'], spec['tags'], spec.get('variant'), ghostreg.DOMAIN.get(spec['cls']))
+        gname = 'ghost:%s[%s%s]' % (spec['program'], spec['cls'], ',' + spec['variant'] if spec.get('variant') else '')
+        functions_under_contract.append(gname)
+        if why:
+            oor_all.append((gname, 'ghost', why))
+            continue
+        stats_all['paths'] += paths
+        for k, ob in enumerate(obls):
+            key = '%s#%d' % (gname, k)
+            ob.name = '%s/%s' % (gname, ob.name.split('/', 1)[-1] if ob.name.startswith(('assert/',)) else ob.name.split('/', 1)[-1])
+            r = driver.ObligationResult(ob, gname, 'ghost')
+            if ob.goal.op == 'bool' and ob.goal.args[0] is True:
+                r.trivial = True
+                all_results.append(r)
+                continue
+            gobs[key] = r
+            gjobs.append((key, prelude.build_query(ob.hyps, ob.goal), prelude.build_query(ob.hyps, ob.goal, opaque=True)))
+    stats_all['gen_s'] += time.time() - ts
+    if gjobs:
+        ts = time.time()
+        solved = solve.solve_many(gjobs, timeout=timeout, tier=tier)
+        stats_all['solve_s'] += time.time() - ts
+        for key, text, _pre in gjobs:
+            gobs[key].result = solved[key]
+            gobs[key].text = text
+            all_results.append(gobs[key])
     # ---- Layer B: lemmas
     lemma_results = []
     jobs = []
